@@ -3,6 +3,7 @@ import OvniModel.Emu.Chan
 import OvniModel.Emu.Core
 import OvniModel.Emu.View
 import OvniModel.Spec.EventValues
+import OvniModel.Spec.TrackModes
 
 /-!
 # C08 — subsystem events nest like a stack and map to documented values
@@ -119,6 +120,17 @@ def matchesDoc (d : Nat × Nat × Nat × Nat × Nat × Int × String) : Bool :=
   (act == 4 || (labels.getD ch []).any (fun l => l.1 == val && l.2 == label))
 
 theorem table_matches_documented : Ovni.Spec.eventValues.all matchesDoc = true := by decide +kernel
+
+/-- one pinned entry is the tracking-mode pair of the model with that character in the regenerated specs -/
+def matchesTrackDoc (d : Nat × List Nat × List Nat) : Bool :=
+  Ovni.Emu.allSpecs.any (fun s => s.char == d.1 && s.thTrack == d.2.1 && s.cpuTrack == d.2.2)
+
+/-- **The tracking modes of the code are the documented ones** (`Spec/TrackModes.lean`, pinned): for
+    every model, per channel, whether the thread row shows the value always / while running / while
+    active, and that the CPU row follows the running thread; and no model is missing from the pin. -/
+theorem track_modes_match_documented :
+    Ovni.Spec.trackModes.all matchesTrackDoc = true ∧
+    Ovni.Emu.allSpecs.all (fun s => Ovni.Spec.trackModes.any (fun d => d.1 == s.char)) = true := by decide
 
 /-! ### Non-vacuity -/
 
